@@ -59,6 +59,16 @@ InFlight ==
           k \in R(Classes), s \in R(Slots) :
          ReadDuring(MkRead(m, id, t, i, c, k, s), ms)
 
+(* the head is reorganised away AND BACK while the request is in flight (the replayer lets the
+   request go while the fork block is stored): whatever the request computed from the fork must not
+   stick once the original chain is back *)
+ThereAndBack ==
+  /\ chain # <<>> /\ reverts + 2 <= MaxReverts
+  /\ LET v == Last(chain) IN
+     \E m \in R(ReadMethods), id \in R(HeadIds), t \in R(HeadTx), i \in R(0..3), c \in R(Contracts),
+        k \in R(Classes), s \in R(Slots) :
+       ReadDuring(MkRead(m, id, t, i, c, k, s), <<RevertMut, StoreMut(1 - v), RevertMut, StoreMut(v)>>)
+
 AllNext ==
   \/ \E v \in Variants : Store(v)
   \/ Revert
@@ -66,6 +76,7 @@ AllNext ==
   \/ \E n \in R(Nums) : SetL1Head(n)
   \/ \E g \in R(BOOLEAN) : Restart(g)
   \/ InFlight
+  \/ ThereAndBack
   \/ BlockNumber \/ BlockHashAndNumber
   \/ \E k \in R(1..9) : \E id \in R(IdsOfKind(k)) : GetBlockWithTxHashes(id)
   \/ \E k \in R(1..9) : \E id \in R(IdsOfKind(k)) : GetBlockWithTxs(id)
